@@ -9,6 +9,7 @@ from .. import build, oracle, pipegen, refsem
 from ..exprgen import Cfg, ExprGen, Scope, evaluate, lit_of
 from ..pipeline_oracle import engine_quirk, exc_name, is_refusal, reraise_control
 from ..refsem import UNDEF, OutOfDomain, RefReject
+from ..ir import walk_expr
 from ..runner import Outcome
 from . import Check
 
@@ -171,6 +172,8 @@ def c15_case(draw, tier):
     elif eq == "map_when":
         f2 = draw(st.sampled_from([f for f in ("int", "str") if sc.by_fam[f]] or ["int"]))
         x = expr(f2, 1)
+        if not any(nd[0] == "col" for nd in walk_expr(x)):
+            x = eg.leaf(f2)  # (a literal first argument of map / is_in is a scalar for Polars, DESIGN 4.15 a)
         fam = draw(st.sampled_from(["int", "str", "float"]))
         branches, used = [], set()
         for _ in range(draw(st.integers(1, 3))):
@@ -192,6 +195,8 @@ def c15_case(draw, tier):
     elif eq == "is_in_or":
         f2 = draw(st.sampled_from([f for f in ("int", "str", "float", "date") if sc.by_fam[f]] or ["int"]))
         x = expr(f2, 1)
+        if not any(nd[0] == "col" for nd in walk_expr(x)):
+            x = eg.leaf(f2)  # (a literal first argument of map / is_in is a scalar for Polars, DESIGN 4.15 a)
         vals = [lit_of(draw, f2, cfg.expr, typed_ok=False) if draw(st.booleans()) else expr(f2, 0) for _ in range(draw(st.integers(1, 3)))]
         a = ["fn", "is_in", [x] + vals, {}]
         b = ["fn", "eq", [x, vals[0]], {}]
